@@ -177,6 +177,12 @@ func (r *schedRun) emit(e Ev) {
 func (r *schedRun) hook(point, step string) {
 	switch point {
 	case "worker.loopchk":
+		if r.free {
+			// free-running mode: the worker reads the stop flag right after this point, concurrently with a stop request.
+			// Logging "Checked" only after the read (at worker.exec) can put it behind a Stop that came after the read;
+			// logged here, "Checked before Stop" + a later ExecBegin implies the read preceded the stop (window start).
+			r.emit(Ev{"ev": "Checked", "s": stepIndex(step)})
+		}
 		return
 	case "node.teardown":
 		if !isHandlerName(step) {
@@ -201,6 +207,10 @@ func (r *schedRun) hook(point, step string) {
 	}
 	if point == "worker.exec" {
 		// the worker has just passed its own cancel check (loop condition)
+		r.emit(Ev{"ev": "Checked", "s": stepIndex(step)})
+	}
+	if r.free && point == "worker.post" && !isHandlerName(step) && r.sc.Repeat[stepIndex(step)-1] {
+		// a repeating step reads the flag again before its next iteration without passing worker.loopchk
 		r.emit(Ev{"ev": "Checked", "s": stepIndex(step)})
 	}
 	if r.free {
